@@ -48,7 +48,8 @@ Definition ints_from (lo : Z) : gp := random_ints lo (Z.max MAXS (lo + MAXS)).
 Definition ints_upto (hi : Z) : gp := random_ints (Z.min (- MAXS) (hi - MAXS)) hi.
 
 Definition random_floats (lo hi : Q) : gp :=
-  let body := GReal lo hi (fun q => GYield (vfloat q) GStop) in
+  let body := if Qle_bool hi lo then GYield (vfloat lo) GStop          (* `... if lower < upper else lower` *)
+              else GReal lo hi (fun q => GYield (vfloat q) GStop) in
   GFun (GYield (vfloat lo) (GYield (vfloat hi) (GLoop body body))).
 Definition default_floats : gp := random_floats (-(1000000#1))%Q (1000000#1)%Q.
 
